@@ -144,6 +144,7 @@ class CentralizedTaskingEngine(TaskingEngine):
                         ),
                     )
             self._task_exec_executor.join()
+            self._dropMissesOfObservedPairs()
 
         # Load imported observations
         if self._importer_db:
@@ -166,6 +167,25 @@ class CentralizedTaskingEngine(TaskingEngine):
         if idle_sensors := set(self.sensor_list) - tasked_sensors:
             msg = f"{len(idle_sensors)} sensors {idle_sensors} not tasked"
             self.logger.info(msg)
+
+    def _dropMissesOfObservedPairs(self) -> None:
+        """Remove missed observations of sensor/target pairs that were observed during this step.
+
+        A sensor taking part in several tasks of one step can miss a target as the primary target
+        of one task, but observe it in the background of another task. The pair was observed, so it
+        must not also be reported as missed.
+        """
+        observed = {(ob.sensor_id, ob.target_id) for ob in self._observations}
+        self._missed_observations = [
+            miss
+            for miss in self._missed_observations
+            if (miss.sensor_id, miss.target_id) not in observed
+        ]
+        self._saved_missed_observations = [
+            miss
+            for miss in self._saved_missed_observations
+            if (miss.sensor_id, miss.target_id) not in observed
+        ]
 
     def calculateRewards(self) -> None:
         """Normalized metrics and calculate reward."""
